@@ -81,11 +81,28 @@ def _replay(case) -> dict:
             failures.append(dict(desc, clause="Shift", observed=[round(float(x), 3) for x in shift], expected=list(ed), where=where, row=row))
 
     drv = cfg["driver"]
+    # half of the cases search with a mask that is NOT invariant under the searched rotations: the support of all the templates,
+    # grown by more than the largest displacement (so it never cuts the planted density, which it follows under each candidate)
+    mask = None
+    if (j + k + T + K + len(cfg["d"])) % 2 == 1:
+        from scipy import ndimage as ndi
+
+        sup = np.zeros_like(templates[0], dtype=bool)
+        for t in templates:
+            sup |= np.asarray(t) != 0
+        mask = ndi.binary_dilation(sup, iterations=int(MAX_SHIFT) + 1).astype(np.float32)
+    desc["mask"] = mask is not None
     if drv in ("model", "model_range"):
         sub = _subvolume(case, j, k, d)
-        model = cls(templates if T > 1 else templates[0], rotations=rots)
+        model = cls(templates if T > 1 else templates[0], mask, rotations=rots)
+        sub_before = np.array(sub, copy=True)
         res = engine.api(model.align, sub, (MAX_SHIFT,) * 3)
         check(int(res.label) % T, res.quat, res.shift, "Model.align")
+        if not np.array_equal(sub, sub_before):
+            failures.append(dict(desc, clause="InputImageChanged", where="Model.align"))
+        res2 = engine.api(model.align, sub_before, (MAX_SHIFT,) * 3)       # the same model asked again gives the same answer
+        if int(res2.label) != int(res.label) or float(np.max(np.abs(np.asarray(res2.shift) - np.asarray(res.shift)))) > 1e-6:
+            failures.append(dict(desc, clause="SecondCallDiffers", where="Model.align"))
         return dict(failures=failures)
 
     # loader-level drivers: a tomogram with planted sub-volumes at integer positions, identity poses
@@ -101,6 +118,8 @@ def _replay(case) -> dict:
     mole = Molecules(np.array(centres, dtype=np.float32), features=pl.DataFrame({"g": [0, 1, 0]}))
     loader = SubtomogramLoader(tomo, mole, order=1, scale=1.0)
     kw = dict(max_shifts=(MAX_SHIFT,) * 3, alignment_model=cls, rotations=rots)
+    if mask is not None and drv in ("loader_stack", "loader_multi", "loader_range"):
+        kw["mask"] = mask
     if drv == "loader_stack":
         out = [engine.api(loader.align, np.stack(templates, axis=0), **kw).molecules]
         order = [[0, 1, 2]]
